@@ -93,6 +93,13 @@ def depth2_terms():
     out.append(empty)
     out += [t for t in unary_constructors(empty) if t[0] not in ("generic",)]
     out += [("dict", ("str",), empty), ("union", [empty, ("int",)]), ("tuple", [empty, ("int",)]), ("union", [("int",)])]
+    # None as an element: of tuples (first, last, middle, only, twice), of collections and of callables
+    none = ("None",)
+    for x in LEAVES_SMALL[:3]:
+        out += [("tuple", [x, none]), ("tuple", [none, x]), ("tuple", [x, none, ("float",)])]
+    # (the one-element tuple of None at result position is C07's matter - one result per element - and recorded there)
+    out += [("tuple", [none, none]), ("list", none), ("dict", ("str",), none), ("set", none), ("callable", [none], ("int",)),
+            ("callable", [("int",)], ("tuple", [("int",), none])), ("generic", "Box", [none])]
     # depth 3 spot: constructor of constructor over the small leaves
     for x in LEAVES_SMALL[:4]:
         for inner in unary_constructors(x):
